@@ -66,6 +66,31 @@ func (c *Config) Proxy(closing chan bool, cc io.ReadWriter, url *url.URL) error 
 		return fmt.Errorf("connecting h2 to %v: %w", url, err)
 	}
 	defer sc.Close()
+
+	// stop is closed when the session has to end: one direction finished or failed, or the proxy
+	// is shutting down. Closing both connections then unblocks every read and write that is still
+	// in progress, so that neither direction can wait for the other indefinitely. Shutdown is
+	// watched from here on, so that it also ends the wait for the client's connection preface.
+	stop := make(chan bool)
+	var stopOnce sync.Once
+	halt := func() {
+		stopOnce.Do(func() {
+			close(stop)
+			sc.Close()
+			if c, ok := cc.(io.Closer); ok {
+				c.Close()
+			}
+		})
+	}
+	defer halt()
+	go func() {
+		select {
+		case <-closing:
+			halt()
+		case <-stop:
+		}
+	}()
+
 	if err := forwardPreface(sc, cc); err != nil {
 		return fmt.Errorf("initializing h2 with %v: %w", url, err)
 	}
@@ -104,29 +129,6 @@ func (c *Config) Proxy(closing chan bool, cc io.ReadWriter, url *url.URL) error 
 		},
 	}
 	sToC.processors = cToS.processors
-
-	// stop is closed when the session has to end: one direction finished or failed, or the proxy
-	// is shutting down. Closing both connections then unblocks every read and write that is still
-	// in progress, so that neither direction can wait for the other indefinitely.
-	stop := make(chan bool)
-	var stopOnce sync.Once
-	halt := func() {
-		stopOnce.Do(func() {
-			close(stop)
-			sc.Close()
-			if c, ok := cc.(io.Closer); ok {
-				c.Close()
-			}
-		})
-	}
-	defer halt()
-	go func() {
-		select {
-		case <-closing:
-			halt()
-		case <-stop:
-		}
-	}()
 
 	// readersDone tells the writer goroutines of both relays that nothing will be queued any more.
 	readersDone := make(chan struct{})
